@@ -47,11 +47,12 @@ def run(tier, seed, replay):
     run.rule = ("TLC enumerates (1) every sequence of up to MaxLen representative bytes appended to every lexer-state context of the JSON, VPL "
                 "and CSV decoders, (2) a multi-byte character at every distance 0..Win before/after an error site (error-message ring buffer), "
                 "(3) every (field, corruption class) pair of the versatiles / PMTiles / MBTiles / tar / MVT layouts applied to a valid encoding "
-                "from the independent encoders, (4) nesting depths 16/64/256; each case runs in a child process with a 8 GiB address-space limit "
+                "from the independent encoders (9 classes incl. 'plausible' = 2^32), (4) nesting depths 16/64/256, (5) runs of multi-byte characters at every alignment around "
+                "error sites, (6) CSV tables by shape (header x 1..4 rows of 0..4 fields); each case runs in a child process with a 8 GiB address-space limit "
                 "and a 15 s watchdog; outcome must be value or error. non-trivial = binary corruption, nesting, ring-buffer case, or text with a "
                 "non-ASCII / invalid / escape byte")
     run.exhaustive = False
     run.extra = {"cases": s["cases"], "outcomes": s["outcomes"], "child_restarts": s["child_restarts"]}
     run.assumptions = ["exploration: systematic over lexer states x byte classes and over fields x corruption classes, not over all byte strings",
-                       "allocation out of proportion is detected only when it exceeds the 8 GiB address-space limit"]
+                       "allocation out of proportion: the harness's counting allocator logs the largest single request per case (Rust allocations only, not SQLite's) and Decode.tla AllocOK bounds it by 256 MiB + 1 KiB per input byte; beyond 8 GiB the address-space limit aborts the child"]
     return run.finish()
